@@ -4,6 +4,7 @@ import (
 	"bytes"
 	"crypto/sha256"
 	"fmt"
+	"sync"
 	"time"
 
 	"github.com/go-i2p/common/data"
@@ -316,6 +317,72 @@ func runC07(c *core.Ctx) {
 	})
 
 	// HashData / HashReader
+	// many identities hashed at the same time, each by its own goroutine: hash, address and bytes are
+	// functions of that identity's bytes whatever else the process is doing (scratch space shared
+	// between calls mixes identities up only when calls overlap)
+	c.Job("concurrent-hashing", c.N(20, 400), func(i int, r *core.Rand) {
+		const G = 8
+		type item struct {
+			d    destination.Destination
+			b    []byte
+			want [32]byte
+			sh   gen.Shape
+		}
+		items := make([]item, 0, G)
+		for len(items) < G {
+			sig := rm.DestSigTypes[r.Pick(len(rm.DestSigTypes))]
+			cr := rm.IdentCryptoTypes[r.Pick(len(rm.IdentCryptoTypes))]
+			m, sh := gen.KACOf(r, sig, cr)
+			b := m.Encode()
+			d, _, err := destination.ReadDestination(b)
+			if err != nil {
+				continue
+			}
+			items = append(items, item{d, b, sha256.Sum256(b), sh})
+		}
+		c.Eval(1)
+		c.Nontrivial([]byte("concurrent-hashing"), items[0].b)
+		bad := make([]string, G)
+		var wg sync.WaitGroup
+		start := make(chan struct{})
+		for g := 0; g < G; g++ {
+			g := g
+			wg.Add(1)
+			go func() {
+				defer wg.Done()
+				defer func() {
+					if pv := recover(); pv != nil {
+						bad[g] = fmt.Sprint("panic: ", pv)
+					}
+				}()
+				<-start
+				it := &items[g]
+				for k := 0; k < 150 && bad[g] == ""; k++ {
+					if h, err := it.d.Hash(); err != nil || h != it.want {
+						bad[g] = fmt.Sprintf("Hash()=%x err=%v, SHA-256(bytes)=%x", h, err, it.want)
+					}
+					if sb, err := it.d.Bytes(); err != nil || !bytes.Equal(sb, it.b) {
+						bad[g] = "Bytes() differs from the identity's encoding"
+					}
+					if k%8 == 0 {
+						if a, err := it.d.Base32Address(); err != nil || a != rm.B32EncodeNoPad(it.want[:])+".b32.i2p" {
+							bad[g] = fmt.Sprintf("Base32Address()=%q err=%v", a, err)
+						}
+					}
+				}
+			}()
+		}
+		close(start)
+		wg.Wait()
+		for g := range bad {
+			if bad[g] != "" {
+				c.Violate("destination.Destination.Hash", "hash-not-sha256-of-bytes", gen.Shape{"class": "eight identities hashed concurrently, one goroutine each", "sig": items[g].sh["sig"], "crypto": items[g].sh["crypto"]}, items[g].b, bad[g])
+				return
+			}
+		}
+		c.Bucket("concurrent-hashing-ok")
+	})
+
 	c.Job("hashdata", n, func(i int, r *core.Rand) {
 		in := r.Bytes(r.Pick(2000))
 		c.Eval(1)
